@@ -68,6 +68,36 @@ where
     | [], i, r :: rs => ⟨i, r, 0, false⟩ :: go [] (i + 1) rs
     | s :: ss, i, r :: rs => ⟨i, r, 0, s⟩ :: go ss (i + 1) rs
 
+/-! ### the pooled batch object -/
+
+/-- metric.BrokerBatchRows as it comes out of brokerBatchRowsPool, split at `rowCount`:
+`cur` = slots below rowCount (what `Rows()`, `Len()` and the iterators see), `stale` = the slots at and
+beyond rowCount: rows of earlier requests — arbitrary contents, shard indexes and marks. -/
+structure PBatch where
+  cur : List BRow
+  stale : List BRow
+  deriving Repr
+
+/-- BrokerBatchRows.reset (NewBrokerBatchRows on a pooled object): `rowCount = 0`, nothing else -/
+def PBatch.reset (b : PBatch) : PBatch := ⟨[], b.cur ++ b.stale⟩
+
+/-- BrokerBatchRows.TryAppend with the outcome of the append function (conversion / decode of one row):
+a slot is appended when none is left; the slot's mark is cleared; on success FromBlock overwrites the
+slot's row (its stale shard index stays until NewShardGroupIterator reassigns it) and rowCount moves on;
+on failure rowCount stays, the slot remains beyond it. -/
+def PBatch.tryAppend (b : PBatch) : Except Err Stored → PBatch
+  | .ok s =>
+    ⟨b.cur ++ [⟨b.cur.length, s, (match b.stale with | [] => 0 | h :: _ => h.shard), false⟩], b.stale.drop 1⟩
+  | .error _ =>
+    ⟨b.cur, match b.stale with
+      | [] => [⟨0, default, 0, false⟩]
+      | h :: t => { h with oor := false } :: t⟩
+
+/-- BrokerBatchRows.Rows / Len -/
+def PBatch.rows (b : PBatch) : List BRow := b.cur
+
+def PBatch.appendMany (b : PBatch) (rs : List (Except Err Stored)) : PBatch := rs.foldl PBatch.tryAppend b
+
 /-! ### write window -/
 
 /-- the condition of EvictOutOfTimeRange -/
